@@ -125,7 +125,7 @@ def case_adjoint(dim, kernel, dtype, dx, ncomp, mset, seed):
                 if np.abs(mom - P[k].astype(np.float64)).max() > 64 * eps * (1 + np.abs(P[k]).max()):
                     fails.append(Fail(f"{tag}:torque-conservation", "first moment of a spread unit force differs from the marker position (Peskin)", axis=k, component=c, dim=dim, set=mset))
     nz = int(np.count_nonzero(Smat))
-    if nz == 0:
+    if nz == 0 and not fails:
         from harness.interp import HarnessError
 
         raise HarnessError("C07 vacuous: spreading matrix empty")
